@@ -237,6 +237,50 @@ def read (nt aa : Alphabet) (init : Gencode) (buf : List Nat) : Option Gencode :
   if aseen.any (· = 0) then none
   some { translTable := -1, desc := "", basic := basic, isInit := ini }
 
+/-! ## the small public functions: DecodeDigicodon, DumpAltCodeTable, Compare -/
+
+/-- `abc->sym[i]` for a C `int` index: `sym` is a `char[Kp+1]` whose last byte is the terminating NUL; anything else is an
+    out-of-bounds read (`none`) -/
+def symAt (nt : Alphabet) (i : Int) : Option Nat :=
+  if i < 0 then none
+  else if i.toNat < nt.sym.length then nt.sym[i.toNat]?
+  else if i.toNat = nt.sym.length then some 0
+  else none
+
+/-- `esl_gencode_DecodeDigicodon(gcode, digicodon, codon)` for ANY C `int` (`/` and `%` truncate toward zero): the three
+    characters stored before the NUL; `none` = a read outside `sym[]` -/
+def decodeDigicodon (nt : Alphabet) (d : Int) : Option (List Nat) := do
+  let a ← symAt nt (d.tdiv 16)
+  let b ← symAt nt ((d.tmod 16).tdiv 4)
+  let c ← symAt nt (d.tmod 4)
+  some [a, b, c]
+
+/-- C `%3d` of a (small) integer -/
+def pad3 (i : Int) : String :=
+  let s := toString i
+  String.ofList (List.replicate (3 - s.length) ' ') ++ s
+
+/-- `esl_gencode_DumpAltCodeTable(ofp)`: the text written -/
+def dumpAltCodeTable (tabs : List RawTable) : String :=
+  "id  description\n" ++ "--- -----------------------------------\n" ++
+    String.join (tabs.map fun t => pad3 t.id ++ " " ++ t.desc ++ "\n")
+
+/-- `esl_gencode_Compare(gc1, gc2, metadata_too)` for two codes over alphabets of types `nt1 aa1` / `nt2 aa2`:
+    `true` = eslOK (identical), `false` = eslFAIL; `none` = a table shorter than 64 entries was read out of bounds -/
+def compareLoop (g1 g2 : Gencode) : Nat → Nat → Option Bool
+  | 0, _ => some true
+  | k+1, x => do
+    let b1 ← g1.basic[x]?; let b2 ← g2.basic[x]?
+    if b1 ≠ b2 then some false else do
+    let i1 ← g1.isInit[x]?; let i2 ← g2.isInit[x]?
+    if i1 ≠ i2 then some false else compareLoop g1 g2 k (x+1)
+
+def compare (ntType1 aaType1 ntType2 aaType2 : Nat) (g1 g2 : Gencode) (metadataToo : Bool) : Option Bool :=
+  if ntType1 ≠ ntType2 then some false
+  else if aaType1 ≠ aaType2 then some false
+  else if metadataToo && (g1.translTable ≠ g2.translTable || g1.desc ≠ g2.desc) then some false
+  else compareLoop g1 g2 64 0
+
 /-! ## the three-frame ORF machine (`esl_gencode_ProcessStart/Piece/Orf/End`) -/
 
 /-- an emitted ORF record -/
